@@ -3,7 +3,7 @@
    of the clauses that need the fixes F1 / F2 go through [src_fixes_all], so reverting a fix in
    the source breaks them. *)
 From Coq Require Import ZArith NArith List Bool Lia.
-From NV Require Import Gen.Gen_LibmemConsts Gen.Gen_LibmemTabs Libmem_Model Libmem_Basics Libmem_Steps Libmem_Proofs Libmem_Alloc Libmem_Hist Libmem_Realloc.
+From NV Require Import Gen.Gen_LibmemConsts Gen.Gen_LibmemTabs Libmem_Model Libmem_Basics Libmem_Steps Libmem_Proofs Libmem_Alloc Libmem_Hist Libmem_Realloc Libmem_Commit.
 Import ListNotations.
 Open Scope Z_scope.
 
@@ -37,6 +37,19 @@ Lemma main_realloc_ok s id nodes types s' res : Inv s ->
   rs_zone res = zone_of id (live s') /\ map r_id (live s') = map r_id (live s) /\
   (forall q, In q (live s) -> msub (r_zone q) (zone_of (r_id q) (live s')) = true).
 Proof. intros I. apply realloc_ok; [exact I|]. rewrite src_fixes_all. reflexivity. Qed.
+
+Lemma main_commit_fresh s r s1 reso o sa ra sc rc : Inv s -> NoEmpty s ->
+  get_offer ns ex src_fixes s r = (s1, reso, Some o) ->
+  allocate ns ex src_fixes s r = (sa, ra) -> commit s1 o = (sc, rc) ->
+  rs_kind ra = KOk /\ rs_kind rc = KOk /\ sc = sa /\
+  rs_zone rc = rs_zone ra /\ rs_upd rc = rs_upd ra /\ rs_zone reso = rs_zone ra /\ rs_upd reso = rs_upd ra.
+Proof.
+  intros I NE G A C. pose proof (main_offer_pure _ _ _ _ _ I NE G) as ->.
+  destruct (commit_fresh_eq_allocate ns ex src_fixes _ _ _ _ _ _ _ _ _ I G A C) as [K1 [K2 [Z [U [Z' [U' [L [ZK V]]]]]]]].
+  repeat split; try assumption.
+  pose proof (allocate_version ns ex src_fixes _ _ _ _ A) as VA. rewrite K1 in VA. rewrite src_fixes_all in VA. cbn [fx_F1a all_fixes bump] in VA.
+  destruct sc, sa. cbn in L, ZK, V, VA. subst. f_equal; lia.
+Qed.
 
 Lemma main_reachable_offers_le ops : offers_le (run ns ex src_fixes init_world ops).
 Proof. apply run_offers_le. apply init_offers_le. Qed.
